@@ -215,6 +215,53 @@ func genC14(r *RNG, tier string) []Case {
 		g := &jgen{r: r}
 		cs = append(cs, jsonCase(fmt.Sprintf("o1(6b=s:%s,6c=i16:7)", g.str(l)), nil, "natural-large", true))
 	}
+	// WIDE large-format containers: thousands of members, so that key entries, key texts and out-of-line values sit
+	// at offsets of 64 KiB and more (every 4-byte offset / size field of the large format is needed in full), and a
+	// few hundred members with long keys (key text beyond 64 KiB while each key stays below the 2-byte key length)
+	wides := []int{r.Range(6000, 6600)}
+	if tier == "thorough" {
+		wides = append(wides, r.Range(6000, 9000), 12000)
+	}
+	for k, nm := range wides {
+		var parts []string
+		for i := 0; i < nm; i++ {
+			key := hx([]byte(fmt.Sprintf("k%05d", i)))
+			switch {
+			case i%97 == 0:
+				parts = append(parts, fmt.Sprintf("%s=s:%s", key, hx([]byte(fmt.Sprintf("v%d", i))))) // out of line, far into the document
+			case i%2 == 0:
+				parts = append(parts, fmt.Sprintf("%s=i16:%d", key, i%30000))
+			default:
+				parts = append(parts, fmt.Sprintf("%s=u32:%d", key, i*70001))
+			}
+		}
+		cs = append(cs, jsonCase("o1("+strings.Join(parts, ",")+")", nil, "wide-large-object", true))
+		if k == 0 || tier == "thorough" {
+			var vs []string
+			for i := 0; i < nm*2; i++ {
+				if i%53 == 0 {
+					vs = append(vs, "s:"+hx([]byte(fmt.Sprintf("e%d", i))))
+				} else {
+					vs = append(vs, fmt.Sprintf("i32:%d", i*65537-1<<20))
+				}
+			}
+			cs = append(cs, jsonCase("a1("+strings.Join(vs, ",")+")", nil, "wide-large-array", true))
+		}
+	}
+	{
+		g := &jgen{r: r}
+		var parts []string
+		seen := map[string]bool{}
+		for i := 0; i < 300; i++ {
+			key := g.str(r.Range(200, 400))
+			if seen[key] {
+				continue
+			}
+			seen[key] = true
+			parts = append(parts, fmt.Sprintf("%s=u16:%d", key, i))
+		}
+		cs = append(cs, jsonCase("o1("+strings.Join(parts, ",")+")", nil, "long-keys-large-object", true))
+	}
 	// variable-length size prefix on its own (raw, correspondence + independent oracle)
 	for i := 0; i < 400; i++ {
 		v := uint64(r.Pick(0, 1, 127, 128, 16383, 16384, 2097151, 2097152, 268435455, 268435456, 4294967295, int(uint32(r.U64()))))
@@ -403,5 +450,5 @@ func init() {
 			}
 			return nil
 		},
-		Rule: "documents from a recursive generator (depth <= 4 quick / 6 thorough, fan-out <= 12 / 40, keys and strings without quote characters, integers at every width boundary, doubles incl. extremes, opaque date / time (both signs) / datetime / decimal), each container in small or (forced / natural >= 64KB) large format, serialised by the independent Lean writer; decoded by printJSONData and through CellBytes(TypeJSON); variable-length prefixes 0..2^32-1; truncated documents for correspondence; the Spec writer itself is checked against 31 byte vectors captured from real servers; runs of 2..24 documents decoded back to back with every returned text kept and compared only afterwards (a recycled output buffer). Non-trivial: containers"})
+		Rule: "documents from a recursive generator (depth <= 4 quick / 6 thorough, fan-out <= 12 / 40, keys and strings without quote characters, integers at every width boundary, doubles incl. extremes, opaque date / time (both signs) / datetime / decimal), each container in small or (forced / natural >= 64KB) large format, wide large-format containers (6000+ members, keys / values at offsets beyond 64 KiB; long keys), serialised by the independent Lean writer; decoded by printJSONData and through CellBytes(TypeJSON); variable-length prefixes 0..2^32-1; truncated documents for correspondence; the Spec writer itself is checked against 31 byte vectors captured from real servers; runs of 2..24 documents decoded back to back with every returned text kept and compared only afterwards (a recycled output buffer). Non-trivial: containers"})
 }
